@@ -144,8 +144,9 @@ def _check_source_cancel(tr, k, st, pf, remote):
     got = _drained_after(tr, k, need_complete=True)
     if got is None:
         return
-    if any(s.tag == 7 and s.op[1] == 2 for s in tr.steps[:k]) or any(s.tag == 3 and s.ob["exc"] >= 200 for s in tr.steps[:k]):
-        return      # the environment removed the source file mid-transfer: outside the property's histories
+    # the environment removed the source file mid-transfer: the checksum clause below is outside the property's histories
+    # then; what was SENT is still a fact of the PDU stream
+    file_gone = any(s.tag == 7 and s.op[1] == 2 for s in tr.steps[:k]) or any(s.tag == 3 and s.ob["exc"] >= 200 for s in tr.steps[:k])
     # a cancel during an EOF (cancel) exchange of THIS transaction abandons (C04/C14): judged from the PDUs emitted
     # since the transaction's put request, not from the handler's own bookkeeping
     for s in reversed(tr.steps[:k]):
@@ -161,12 +162,42 @@ def _check_source_cancel(tr, k, st, pf, remote):
     if len(got) <= queued_before and queued_before:
         return
     got = got[queued_before:]
+    if file_gone and (not got or got[0]["kind"] != codec.K_EOF):
+        return
     if not got or got[0]["kind"] != codec.K_EOF:
         raise Failure(f"C12 the next PDU after a successful sender cancel is not an EOF: {[g['kind'] for g in got]} (op {st.i})")
     e = got[0]
-    if e["cond"] != 15 or e["fsize"] != pf["progress"]:
+    if e["cond"] != 15 or (e["fsize"] != pf["progress"] and not file_gone):
         raise Failure(f"C12 EOF after cancel has condition {e['cond']} size {e['fsize']}; expected Cancel Request Received, "
                       f"size = bytes sent = {pf['progress']} (op {st.i})")
+    # the same judged from the PDU stream alone: the file bytes sent are those of the File Data PDUs emitted since the put
+    # (unless the environment rewrote or removed files underneath the running transaction)
+    sent = 0
+    env_touched = False
+    for s in reversed(tr.steps[:k]):
+        if s.tag == 8 and s.ob["ret"] == 1:
+            break
+        if s.tag == 7 and s.op[1] != 2:
+            # rewritten: with other content, unless it is put back as it was (a file that is merely missing sends nothing)
+            put_step = next((x for x in reversed(tr.steps[:k]) if x.tag == 8 and x.ob["ret"] == 1), None)
+            before = srcprops.files_of(tr, put_step.i) if put_step is not None else {}
+            comps, i = codec.take_path(s.op, 2)
+            if s.op[1] != 1 or before.get(tuple(comps)) != bytes(s.op[i + 1:i + 1 + s.op[i]]):
+                env_touched = True
+        if s.tag in (0, 1) and s.ob["exc"] == 1:
+            continue
+        if s.tag == 2 and s.ob["ret"] == 1:
+            g = codec.dec_got(s.ob["extra"])[0]
+            if g["kind"] == codec.K_FD:
+                sent = max(sent, g["offset"] + len(g["data"]))
+    for g in _drained_after(tr, k, need_complete=True)[:queued_before]:
+        if g["kind"] == codec.K_FD:
+            sent = max(sent, g["offset"] + len(g["data"]))
+    if e["fsize"] != sent and not env_touched:
+        raise Failure(f"C12 EOF after cancel states file size {e['fsize']} but the File Data PDUs emitted for this transaction "
+                      f"cover {sent} bytes (op {st.i})")
+    if file_gone:
+        return
     put = next((srcprops.dec_put(s.op[1:]) for s in reversed(tr.steps[:k]) if s.tag == 8 and s.ob["ret"] == 1), None)
     if put and put["src"] is not None and remote["cktype"] in (0, 2, 3, 15):
         data = srcprops.files_of(tr, st.i).get(put["src"])
@@ -231,7 +262,18 @@ def pf_mode(tr, k):
 # ------------------------------------------------------------------ C14
 def oracle_c14(tr: Trace):
     table = tr.cfg["faults"]
+    cancelled = None        # id of the running transaction once a notice-of-cancellation callback was delivered for it
     for k, st in enumerate(tr.steps):
+        # "the callback is invoked once ... and the transaction then is cancelled": a cancelled transaction declares nothing
+        # that is handled by a second notice of cancellation (faults during the cancel exchange abandon it)
+        for e in st.ob["events"]:
+            if e[0] == 11:
+                if cancelled == (e[1], e[2]):
+                    raise Failure(f"C14 a second notice-of-cancellation callback (condition {e[3]}) for transaction {cancelled} "
+                                  f"which had already been cancelled: the first one did not cancel it (op {st.i})")
+                cancelled = (e[1], e[2])
+        if st.ob["fields"]["state"] == 0 or st.tag in (4, 8):
+            cancelled = None
         if (st.tag == 7 and st.op[1] == 2) or (st.tag == 3 and st.ob["exc"] >= 200):
             return      # the environment removed a file mid-transfer: outside the property's histories from here on
         evs = st.ob["events"]
@@ -274,7 +316,7 @@ def oracle_c14(tr: Trace):
                 raise Failure(f"C14 condition {cond} reported {n} times by one call (op {st.i})")
         # effect of the configured handler
         f = st.ob["fields"]
-        if st.ob["exc"] >= 100:
+        if 100 <= st.ob["exc"] < 200:      # OS errors of a filestore that refused the file and whose rejection is ignored: not judged
             raise Failure(f"C14 the call that declared fault(s) {[(e[3], e[0] - 10) for e in fe]} (condition, handler code) raised "
                           f"exception code {st.ob['exc']} instead of carrying out the configured handler (op {st.i})")
         for e in fe:
@@ -284,6 +326,28 @@ def oracle_c14(tr: Trace):
                     raise Failure(f"C14 abandon handler for condition {cond}: handler not idle afterwards (op {st.i})")
                 if _drained_after(tr, k) and tr.kind == "source":
                     raise Failure(f"C14 abandon handler for condition {cond}: PDUs emitted afterwards (op {st.i})")
+            if kind == 11 and table.get(cond) == 1 and tr.kind == "dest" and not (pf is not None and pf["disposition"] == 1):
+                # notice of cancellation, judged from what the receiver emits (not from its own bookkeeping): from the next
+                # call on nothing is requested any more, and the first Finished PDU reports this condition to the peer
+                queued = f.get("qlen", 0)       # PDUs of this very call, possibly queued before the fault was declared
+                for s2 in tr.steps[k + 1:]:
+                    if s2.tag in (3, 4, 8) or (s2.tag == 7 and s2.op[1] == 2):
+                        break
+                    if s2.tag in (0, 1) and any(x[0] == 14 for x in s2.ob["events"]):
+                        break
+                    if s2.tag == 2 and s2.ob["ret"] == 1:
+                        g2 = codec.dec_got(s2.ob["extra"])[0]
+                        queued -= 1
+                        if g2["kind"] == codec.K_NAK and queued < 0:
+                            raise Failure(f"C14 notice of cancellation for condition {cond} (op {st.i}) but the receiver went on "
+                                          f"requesting data: NAK {g2['reqs']} (op {s2.i})")
+                        if g2["kind"] == codec.K_FIN:
+                            if g2["cond"] != cond:
+                                raise Failure(f"C14 notice of cancellation for condition {cond} (op {st.i}): the Finished PDU "
+                                              f"reports condition {g2['cond']} to the peer (op {s2.i})")
+                            break
+                    if s2.ob["fields"]["state"] == 0 and s2.ob["fields"].get("qlen", 0) == 0:
+                        break
             if kind == 11 and cond in (1, 7, 10, 6, 4) and tr.kind == "dest" and f["state"] == 1:
                 if f["fin_cond"] != cond and f["disposition"] == 1 and not any(x[0] == 11 and x[3] != cond for x in fe):
                     raise Failure(f"C14 notice of cancellation for condition {cond}: Finished parameters carry {f['fin_cond']} (op {st.i})")
